@@ -35,7 +35,7 @@ theorem store_refuses_duplicate_reference (now : Time) (t : TxIn) (d : Db) (sq :
 theorem conflicting_create_no_effect (strict : Bool) (s : State) (op : Op)
     (h : (step strict s op).2.err = some (.store .referenceConflict)) : (step strict s op).1.db = s.db := by
   unfold step at *
-  rcases forgeLog_ending strict op none false s with ⟨hu, _, _⟩ | ⟨_, st, log, _, _, _, _, _, _, _, hc⟩
+  rcases forgeLog_ending strict op [] false s with ⟨hu, _, _⟩ | ⟨_, st, log, _, _, _, _, _, _, _, hc⟩
   · exact hu
   · exfalso
     simp only at h
